@@ -37,6 +37,8 @@ def build_requests(case):
         if kind == "a" and key in e.nolayout:
             continue
         for lay in LAYOUTS[1:]:
+            if kind == "a" and key in e.inplace_args and lay == "readonly":
+                continue        # a canvas that is drawn on must be writable: rejecting a read-only one is correct
             lays = ["C"] * len(args)
             kl = {}
             if kind == "a":
